@@ -292,6 +292,36 @@ theorem files_follow_language (E : Env) (ops : List (String × String)) :
       exact ih s' _ (shape_step E s s' n v hs hstep) (langOk_step E s s' n v hs ho hstep) (filesInv_step E s s' f n v hs ho hi hstep)
     · exact ih s f hs ho hi
 
+/-- the store component of the combined run is the run of `MC.Props.C12` (so `separators_follow_preferences` speaks about the same states) -/
+theorem runOpsF_fst (E : Env) (ops : List (String × String)) (s : PState) (f : Files) : (runOpsF E (s, f) ops).1 = runOps E s ops := by
+  induction ops generalizing s f with
+  | nil => rfl
+  | cons op rest ih =>
+    obtain ⟨n, v⟩ := op
+    simp only [runOpsF, runOps]
+    cases hstep : setPreference E s n v with
+    | ok s' => simp only; exact ih _ _
+    | err k => simp only; exact ih _ _
+    | panic p => simp only; exact ih _ _
+
+/-- **route independence** (C10: results depend on the current preferences, not on how they were reached): two histories that end
+with the same `Language` and `LanguageAuto` select the same rule files and the same style-file language -/
+theorem files_route_independent (E : Env) (ops1 ops2 : List (String × String))
+    (hL : prefToString (runOpsF E (initState, initFiles) ops1).1 "Language" = prefToString (runOpsF E (initState, initFiles) ops2).1 "Language")
+    (hA : prefToString (runOpsF E (initState, initFiles) ops1).1 "LanguageAuto" = prefToString (runOpsF E (initState, initFiles) ops2).1 "LanguageAuto") :
+    (runOpsF E (initState, initFiles) ops1).2 = (runOpsF E (initState, initFiles) ops2).2 := by
+  have i1 := files_follow_language E ops1
+  have i2 := files_follow_language E ops2
+  have hc := curLanguage_congr _ _ hL hA
+  unfold FilesInv at i1 i2
+  cases h1 : (runOpsF E (initState, initFiles) ops1).2 with
+  | mk a1 b1 =>
+    cases h2 : (runOpsF E (initState, initFiles) ops2).2 with
+    | mk a2 b2 =>
+      rw [h1] at i1; rw [h2] at i2
+      simp only at i1 i2
+      rw [i1.1, i1.2, i2.1, i2.2, hc]
+
 /-- the order of the three preferences does not matter: style first or last, the style file is looked up in the host's language -/
 example : (runOpsF envAll (initState, initFiles) [("Language", "Auto"), ("LanguageAuto", "es"), ("SpeechStyle", "SimpleSpeak")]).2
         = ⟨"es", "es"⟩ ∧
